@@ -34,7 +34,7 @@ func init() {
 			"Go runtime, strconv/math/big/unicode used by the oracle to build and compare values",
 			"the parser entry point FileOptions.ParseExpr is used to reach the unexported syntax.unquote (Quote's inverse)",
 			"the structural comparison in the monitor (types at every level, floats by bits, dict entries irrespective of order)",
-			"wall-clock watchdog of 60 s per cyclic print decides only inconclusive, never held/violated",
+			"wall-clock watchdog of 120 s per cyclic print decides only inconclusive, never held/violated",
 		},
 		Run:         run,
 		MinDistinct: 1000,
@@ -73,11 +73,12 @@ func finish(ev map[string]any) (string, bool) {
 	return "", false
 }
 
-const cycleTimeout = 60 * time.Second
+const cycleTimeout = 120 * time.Second
 
 func run(c *driver.Ctx) {
-	// A runaway recursion in the printer should die quickly and cheaply; legitimate depth here is < 100 frames.
-	debug.SetMaxStack(256 << 20)
+	// A runaway recursion in the printer should die quickly and cheaply (growing a Go stack to the default 1 GB limit
+	// takes a long time); the legitimate recursion depth of every case here is a few hundred frames (< 100 KB of stack).
+	debug.SetMaxStack(8 << 20)
 	e := newEng(c)
 	defer e.emitSamples()
 
@@ -466,7 +467,7 @@ func (e *eng) sectionContainers() {
 
 func (e *eng) sectionCycles() {
 	c := e.c
-	n := c.Pick(1500, 20000)
+	n := c.Pick(900, 6000) // kept moderate: on a tree with broken cycle detection every such case kills the child once
 	for k := 0; k < n; k++ {
 		if !c.Take() {
 			continue
